@@ -1,5 +1,7 @@
 #[macro_use]
 pub mod engine;
+pub mod fuzz;
+pub mod fuzzrun;
 pub mod answerable;
 pub mod cli;
 pub mod codec;
